@@ -152,13 +152,65 @@ def EV.run (s : EV) : List EVOp → EV
   | [] => s
   | op :: ops => EV.run (s.step op).1 ops
 
-def EV.stepLine (s : EV) (toks : List String) : EV × String :=
+/-! ### The loop of `evict` on a fixed-width slot type
+
+`for i := startingSlot; i <= slot; i++ { probe i; if i == slot { break } }` (the repaired code) on a slot type whose
+largest value is `top`: `i++` at `top` wraps around (to 0 for the unsigned types; the signed ones wrap to their minimum,
+which is below every slot as well — the model uses 0 for both).  `none` = the loop is still running when the fuel is
+used up.  `evLoopOld` is the loop without the `break`: with `slot = top` its condition `i <= slot` can never fail. -/
+
+def evNext (top i : Nat) : Nat := if i < top then i + 1 else 0
+
+def evProbe (events : List Nat) (i : Nat) (acc : List Nat) : List Nat := if events.contains i then i :: acc else acc
+
+def evLoop (top : Nat) (events : List Nat) (slot : Nat) : Nat → Nat → List Nat → Option (List Nat)
+  | 0, _, _ => none
+  | fuel + 1, i, acc =>
+    if i ≤ slot then
+      if i == slot then some (evProbe events i acc).reverse
+      else evLoop top events slot fuel (evNext top i) (evProbe events i acc)
+    else some acc.reverse
+
+def evLoopOld (top : Nat) (events : List Nat) (slot : Nat) : Nat → Nat → List Nat → Option (List Nat)
+  | 0, _, _ => none
+  | fuel + 1, i, acc =>
+    if i ≤ slot then evLoopOld top events slot fuel (evNext top i) (evProbe events i acc)
+    else some acc.reverse
+
+/-- `EV.step` with `evict`'s loop executed literally on a slot type with largest slot `top` (what the driver runs;
+equal to `EV.step` for slots of the type: `EV.stepW_eq`). -/
+def EV.stepW (top : Nat) (s : EV) : EVOp → EV × EVOut
+  | .event slot => s.step (.event slot)
+  | .evict slot =>
+    if s.evicted slot then (s, .triggered [])
+    else
+      let start := match s.last with | none => 0 | some l => l + 1
+      let fire := (evLoop top s.events slot (slot + 1 - start) start []).getD []
+      ({ s with last := some slot, events := s.events.filter (fun i => !(decide (start ≤ i) && decide (i ≤ slot))),
+                trig := s.trig ++ fire }, .triggered fire)
+
+/-- Largest slot of the slot types the harness instantiates `EvictionState` with (floats: up to where every integer
+is a value of the type). -/
+def evTop : String → Option Nat
+  | "int" | "i64" => some (2 ^ 63 - 1)
+  | "i8" => some (2 ^ 7 - 1)
+  | "i16" => some (2 ^ 15 - 1)
+  | "i32" => some (2 ^ 31 - 1)
+  | "uint" | "u64" | "uintptr" => some (2 ^ 64 - 1)
+  | "u8" => some (2 ^ 8 - 1)
+  | "u16" => some (2 ^ 16 - 1)
+  | "u32" | "slot32" => some (2 ^ 32 - 1)
+  | "f32" => some (2 ^ 24)
+  | "f64" => some (2 ^ 53)
+  | _ => none
+
+def EV.stepLine (top : Nat) (s : EV) (toks : List String) : EV × String :=
   match toks with
-  | ["new"] => (EV.init, "ok")
   | ["event", n] =>
     match n.toNat? with
     | some n =>
-      match s.step (.event n) with
+      if n > top then (s, "bad-op") else
+      match s.stepW top (.event n) with
       | (s', .pre) => (s', "pre")
       | (s', .held true) => (s', "held new")
       | (s', .held false) => (s', "held same")
@@ -167,7 +219,8 @@ def EV.stepLine (s : EV) (toks : List String) : EV × String :=
   | ["evict", n] =>
     match n.toNat? with
     | some n =>
-      match s.step (.evict n) with
+      if n > top then (s, "bad-op") else
+      match s.stepW top (.evict n) with
       | (s', .triggered l) => (s', showNatList l ++ " last=" ++ toString (s'.last.getD 0))
       | (s', _) => (s', "bad")
     | none => (s, "bad-op")
